@@ -157,7 +157,21 @@ def enum_corpus(tier, seed):
 def unrepresentable(draw):
     """Documents with a construct the library has no representation for: it must raise, not return a model that
     silently lacks (or re-interprets) the construct."""
-    which = draw(st.sampled_from(["featureide-atmost1", "featureide-unknown-rule", "glencoe-unknown-term"]))
+    which = draw(st.sampled_from(["featureide-atmost1", "featureide-unknown-rule", "glencoe-unknown-term",
+                                  "fama-dangling-reference"]))
+    if which == "fama-dangling-reference":
+        # a requires/excludes element naming a feature the tree does not declare denotes no constraint of this model
+        model = draw(S.model_specs(S.FAMA, 2, 6))
+        names = build.names(model)
+        ghost = draw(st.sampled_from(["Ghost", names[0] + "x", names[-1].swapcase() + "_", ""]))
+        if ghost in names:
+            ghost = "".join(names) + "?"
+        pair = [["T", names[0]], ["T", ghost]]
+        if draw(st.booleans()):
+            pair.reverse()
+        model["ctcs"] = model["ctcs"][:1] + [{"name": "CTC-x", "ast": [draw(st.sampled_from(["REQUIRES", "EXCLUDES"]))] + pair}]
+        text, _ = EF.emit_fama(draw, model)
+        return {"format": "fama", "model": model, "text": text, "labels": ["unrepresentable:" + which], "expect": "error"}
     if which.startswith("featureide"):
         model = draw(S.model_specs(S.FEATUREIDE, 2, 6))
         model["ctcs"] = []
